@@ -1401,6 +1401,76 @@ std::vector<Sub> vh_subs() {
     subs.push_back(s);
   }
   {
+    // table-level public API under the four CPU masks: the integer / bit-exact conversions must not depend on which features
+    // were detected when the table was created (dispatch thresholds on m, log2bound, log2overhead included)
+    Sub s;
+    s.name = "table_masks";
+    s.fields = {{"logm", 0, 12}, {"op", 0, 5}, {"log2bound", 0, 64}, {"divexp", -4, 40}, {"ovh", 0, 48}, {"seed", 0, INT64_MAX - 1}};
+    s.run = [](const Vals& v, Ctx& c) {
+      const uint64_t m = 1ull << v[0];
+      const int op = (int)v[1];
+      const uint32_t L = (uint32_t)v[2];
+      const double dv = std::ldexp(1.0, (int)v[3]);
+      const uint32_t ovh = (uint32_t)v[4];
+      static const char* names[] = {"reim_to_znx64", "reim_from_znx64", "reim_to_tnx", "cplx_from_znx32", "cplx_from_tnx32", "cplx_to_tnx32"};
+      Rng r((uint64_t)v[5]);
+      std::vector<double> xd(2 * m);
+      std::vector<int64_t> xi(2 * m);
+      std::vector<int32_t> x32(2 * m);
+      const unsigned Lb = L < 52 ? L : 52;  // declared bound 2^log2bound, never beyond the wide variant's 2^52
+      for (uint64_t q = 0; q < 2 * m; ++q) {
+        // to_znx64: |x/d| < 2^Lb, away from .5 ties (quarter offsets below 2^49, integers above)
+        unsigned bits = (q % 3 == 0 && Lb >= 2) ? Lb - (unsigned)r.below(2) : (unsigned)r.below(Lb + 1);
+        double mag = bits ? std::floor(std::ldexp(0.5 + 0.499 * r.unit(), (int)bits)) : 0.0;
+        if (bits < 49) mag += 0.25;
+        xd[q] = mag * dv * (r.below(2) ? -1.0 : 1.0);
+        xi[q] = r.sbits(L < 50 ? L : 50);
+        x32[q] = (int32_t)r.next();
+      }
+      std::vector<std::vector<uint8_t>> outs;
+      for (unsigned mask = 0; mask < 4; ++mask) {
+        spq::MaskGuard g(mask);
+        std::vector<uint8_t> o;
+        switch (op) {
+          case 0: { auto* t = new_reim_to_znx64_precomp((uint32_t)m, dv, L); std::vector<int64_t> r64(2 * m); reim_to_znx64(t, r64.data(), xd.data()); free(t); o.assign((uint8_t*)r64.data(), (uint8_t*)(r64.data() + 2 * m)); break; }
+          case 1: { auto* t = new_reim_from_znx64_precomp((uint32_t)m, L < 50 ? L : 50); std::vector<double> rd(2 * m); reim_from_znx64(t, rd.data(), xi.data()); free(t); o.assign((uint8_t*)rd.data(), (uint8_t*)(rd.data() + 2 * m)); break; }
+          case 2: {
+            std::vector<double> in(2 * m), rd(2 * m);
+            Rng r2((uint64_t)v[5] ^ 77);
+            for (auto& z : in) z = r2.sunit() * dv * std::ldexp(1.0, (int)ovh);
+            auto* t = new_reim_to_tnx_precomp((uint32_t)m, dv, ovh); reim_to_tnx(t, rd.data(), in.data()); free(t);
+            o.assign((uint8_t*)rd.data(), (uint8_t*)(rd.data() + 2 * m)); break;
+          }
+          case 3: { auto* t = new_cplx_from_znx32_precomp((uint32_t)m); std::vector<double> rd(2 * m); cplx_from_znx32(t, rd.data(), x32.data()); free(t); o.assign((uint8_t*)rd.data(), (uint8_t*)(rd.data() + 2 * m)); break; }
+          case 4: { auto* t = new_cplx_from_tnx32_precomp((uint32_t)m); std::vector<double> rd(2 * m); cplx_from_tnx32(t, rd.data(), x32.data()); free(t); o.assign((uint8_t*)rd.data(), (uint8_t*)(rd.data() + 2 * m)); break; }
+          default: {
+            std::vector<double> in(2 * m);
+            std::vector<int32_t> r32(2 * m);
+            Rng r2((uint64_t)v[5] ^ 99);
+            const uint32_t o2 = ovh > 18 ? 18 : ovh;
+            // grid points + 1/4: no rounding ties between the two variants
+            for (auto& z : in) z = (std::floor(r2.sunit() * std::ldexp(1.0, (int)o2 + 30)) + 0.25) * dv * std::ldexp(1.0, -32);
+            auto* t = new_cplx_to_tnx32_precomp((uint32_t)m, dv, ovh > 18 ? 18 + (ovh % 3) * 10 : ovh); cplx_to_tnx32(t, r32.data(), in.data()); free(t);
+            o.assign((uint8_t*)r32.data(), (uint8_t*)(r32.data() + 2 * m));
+          }
+        }
+        outs.push_back(o);
+      }
+      c.notef("%s m=%llu divisor=2^%d log2bound=%u log2overhead=%u under CPU masks 0..3", names[op], (unsigned long long)m, (int)v[3], L, ovh);
+      for (unsigned mask = 1; mask < 4; ++mask)
+        if (outs[mask] != outs[0]) {
+          size_t off = 0;
+          while (outs[mask][off] == outs[0][off]) ++off;
+          return c.failf("%s (table API) m=%llu divisor=2^%d log2bound=%u log2overhead=%u: result depends on the CPU features visible when the table was created: mask %u differs from mask 0 at output byte %zu",
+                         names[op], (unsigned long long)m, (int)v[3], L, ovh, mask, off);
+        }
+      c.nontrivial = true;
+      c.cls(std::string("tablemask:") + names[op]);
+      if (m >= 8) c.cls("tablemask:m>=8");
+    };
+    subs.push_back(s);
+  }
+  {
     Sub s;
     s.name = "api_masks";
     s.fields = {{"k", 1, 14}, {"op", 0, A_NOPS - 1}, {"mtype", 0, 1}, {"shape", 0, (1ll << 31) - 1}, {"p", -(1ll << 40), (1ll << 40)},
